@@ -508,6 +508,7 @@ static bool is_ancestor(ref x, ref y)
     }
     return 0;
 }
+#define REPLACE_WOULD_CYCLE(y) ((y) != 0 && ((y) == P_ || is_ancestor(P_, (y))))
 static bool acyclic(void)
 {
     for (ref x = 1; x < HEAP_N; ++x) {
@@ -639,9 +640,15 @@ void h_components(void)
         break;
     }
     case 7: {
-        __CPROVER_assume(in_y == 0 || (!in_list(&LP0, in_y) && in_y != P_ && in_y != Q_ && in_y != GP_) || (in_index < LP0.n && in_y == LP0.d[in_index]));
+        /* a replacement that this container already holds at another position is the "adding an entity to the container that already
+         * holds it" case the property leaves out; moving the second container Q_ itself is not modelled.  The container itself and its
+         * parent ARE possible replacements: the hierarchy must stay acyclic. */
+        __CPROVER_assume(in_y == 0 || in_y == P_ || in_y == GP_ || (!in_list(&LP0, in_y) && in_y != Q_) || (in_index < LP0.n && in_y == LP0.d[in_index]));
         bool r = ComponentEntity_replaceComponent__sz_ref(P_, in_index, in_y);
-        if (in_index < LP0.n && in_y != 0)
+        if (REPLACE_WOULD_CYCLE(in_y)) {
+            OP_ASSERT(!r, "replaceComponent(index, component)", "replacing a child by the container itself or by one of its ancestors is refused (the hierarchy stays acyclic)");
+            POST_UNCHANGED("replaceComponent(index, component) (cycle)", LC(P_), LC(Q_));
+        } else if (in_index < LP0.n && in_y != 0)
             POST_REPLACED("replaceComponent(index, component)", LC(P_), LC(Q_), r, LP0.d[in_index], in_y);
         else {
             OP_ASSERT(!r, "replaceComponent(index, component)", "out-of-range index or null replacement is refused");
@@ -650,10 +657,13 @@ void h_components(void)
         break;
     }
     case 8: {
-        __CPROVER_assume(in_y == 0 || (!in_list(&LP0, in_y) && in_y != P_ && in_y != Q_ && in_y != GP_));
+        __CPROVER_assume(in_y == 0 || in_y == P_ || in_y == GP_ || (!in_list(&LP0, in_y) && in_y != Q_));
         ref e = first_named(&LP0, in_name);
         bool r = ComponentEntity_replaceComponent__s_ref_b(P_, in_name, in_y, 0);
-        if (e != 0 && in_y != 0)
+        if (REPLACE_WOULD_CYCLE(in_y)) {
+            OP_ASSERT(!r, "replaceComponent(name, component)", "replacing a child by the container itself or by one of its ancestors is refused (the hierarchy stays acyclic)");
+            POST_UNCHANGED("replaceComponent(name, component) (cycle)", LC(P_), LC(Q_));
+        } else if (e != 0 && in_y != 0)
             POST_REPLACED("replaceComponent(name, component)", LC(P_), LC(Q_), r, e, in_y);
         else {
             OP_ASSERT(!r, "replaceComponent(name, component)", "unknown name or null replacement is refused");
@@ -662,10 +672,13 @@ void h_components(void)
         break;
     }
     case 9: {
-        __CPROVER_assume(in_y == 0 || (!in_list(&LP0, in_y) && in_y != P_ && in_y != Q_ && in_y != GP_));
+        __CPROVER_assume(in_y == 0 || in_y == P_ || in_y == GP_ || (!in_list(&LP0, in_y) && in_y != Q_));
         __CPROVER_assume(in_x == 0 || in_list(&LP0, in_x) || no_equal_child(in_x));
         bool r = ComponentEntity_replaceComponent__ref_ref_b(P_, in_x, in_y, 0);
-        if (in_x != 0 && in_list(&LP0, in_x) && in_y != 0)
+        if (REPLACE_WOULD_CYCLE(in_y)) {
+            OP_ASSERT(!r, "replaceComponent(old, new)", "replacing a child by the container itself or by one of its ancestors is refused (the hierarchy stays acyclic)");
+            POST_UNCHANGED("replaceComponent(old, new) (cycle)", LC(P_), LC(Q_));
+        } else if (in_x != 0 && in_list(&LP0, in_x) && in_y != 0)
             POST_REPLACED("replaceComponent(old, new)", LC(P_), LC(Q_), r, in_x, in_y);
         else {
             OP_ASSERT(!r, "replaceComponent(old, new)", "null / unknown old component or null replacement is refused");
